@@ -256,6 +256,40 @@ static std::string op_decver(const std::vector<std::string> &a, bool dec)
   return o.str();
 }
 
+// ---- path-based operations for large files (production constants) ----
+// encp CM HM T KEY SEED INPATH OUTPATH   |  decp T KEY INPATH OUTPATH  |  verp T KEY INPATH
+static std::string op_paths(const std::vector<std::string> &a)
+{
+  bool r;
+  if (a[0] == "encp")
+  {
+    bytes key = unhex(a[4]), seed = unhex(a[5]);
+    seed.push_back(0);
+    FILE *fin = fopen(a[6].c_str(), "rb");
+    FILE *fo = fopen(a[7].c_str(), "wb+");
+    fseek(fin, 0, SEEK_END);
+    size_t sz = ftell(fin);
+    fseek(fin, 0, SEEK_SET);
+    Settings st(atoi(a[1].c_str()), atoi(a[2].c_str()), true);
+    runcrypt rc(fin, fo, key.data(), st, (u8_t)atoi(a[3].c_str()));
+    r = rc.execute_encrypt(sz, seed.data());
+  }
+  else
+  {
+    bool dec = a[0] == "decp";
+    bytes key = unhex(a[2]);
+    FILE *fin = fopen(a[3].c_str(), "rb");
+    FILE *fo = dec ? fopen(a[4].c_str(), "wb+") : NULL;
+    fseek(fin, 0, SEEK_END);
+    size_t sz = ftell(fin);
+    fseek(fin, 0, SEEK_SET);
+    Settings st(-1, -1, true);
+    runcrypt rc(fin, fo, key.data(), st, (u8_t)atoi(a[1].c_str()));
+    r = dec ? rc.execute_decrypt(sz) : rc.execute_verify(sz);
+  }
+  return r ? "OK -" : "FAIL";
+}
+
 // ---- abstract pipeline: the buffer group and worker threads with tagging stream objects ----
 // stream s marks the n-th block it sees: bytes 0..7 ^= s+1, byte 8 ^= n (mod 256)
 class TagMode : public Aesmode
@@ -375,6 +409,8 @@ static std::string run_fileop(const std::vector<std::string> &a)
     return op_pipe(a);
   if (a[0] == "cli")
     return op_cli(a);
+  if (a[0] == "encp" || a[0] == "decp" || a[0] == "verp")
+    return op_paths(a);
   return "?";
 }
 
@@ -640,7 +676,7 @@ int main(int argc, char **argv)
       if (a.empty())
         continue;
     }
-    if (a[0] == "enc" || a[0] == "dec" || a[0] == "ver" || a[0] == "pipe" || a[0] == "cli")
+    if (a[0] == "enc" || a[0] == "dec" || a[0] == "ver" || a[0] == "pipe" || a[0] == "cli" || a[0] == "encp" || a[0] == "decp" || a[0] == "verp")
     {
       isolated(id, {a});
     }
